@@ -120,6 +120,9 @@ def binder_kinds(F):
                             for x in walk(a):
                                 if x.get("dk") == "enumerator" and kind_enum in (x.get("t") or kind_enum):
                                     out[x["name"]] = end["name"]
+    from .exprlaws import size_table
+    sizes, _ = size_table(F)
+    out = {k: v for k, v in out.items() if k in sizes}      # kind_t also has the type kinds (INT ..): expression kinds only
     if not {"FORALL", "EXISTS", "SUM"} <= set(out):
         raise AnalysisBroken("binder kinds not found in ExpressionBuilder (%s)" % sorted(out))
     return out
